@@ -230,7 +230,49 @@ def run(tier):
             try:
                 ev.run(fn, args, signs)
             except irval.Inconclusive as e:
-                rep.inconclusive("M18.map(%s)" % tag, "M18.map", str(e))
+                # the adaptor branches on a relation between strides and sizes that the case does not fix (a shortcut for special layouts):
+                # decide on the concrete members of the case class with small strides and sizes
+                import itertools as _it2
+                wit = None
+                decided = 0
+                for svals in _it2.product((1, 2, 3, 4, 6), repeat=D):
+                    for zvals in _it2.product((1, 2, 3), repeat=D):
+                        if any((scls[k] == "1") != (svals[k] == 1) for k in range(D)) or any((cls[k] == "1") != (zvals[k] == 1) for k in range(D)):
+                            continue
+                        cargs = [A("base")]
+                        for k in range(D):
+                            cargs += [P.const(svals[k]), P.const(0), P.const(zvals[k] * svals[k])]
+                        outs.clear()
+                        try:
+                            ev.run(fn, cargs, signs)
+                        except (irval.Inconclusive, irval.AssertFires):
+                            continue
+                        decided += 1
+                        ccalls = [(c_, v_, d_, outs.get(i_ + 1)) for i_, (c_, v_, d_, _s) in enumerate(ev.extcalls)]
+                        sunk_c, probs_c = interpret(ccalls, basics)
+                        if sunk_c is None or sunk_c[2] is None:
+                            continue
+                        got_c = norm([(sunk_c[1], sunk_c[2].extent)] + sunk_c[2].levels)
+                        want_c = norm([(P.const(zvals[k]), P.const(svals[k] * ESZ)) for k in range(D)]) if not fn.startswith("data_") else []
+                        # two level lists denote the same element sequence iff they enumerate the same displacements in the same order
+                        def enum(levels):
+                            res = [0]
+                            for c_, st_ in levels:
+                                res = [o + i_ * int(st_.const_value()) for o in res for i_ in range(int(c_.const_value()))]
+                            return res
+                        try:
+                            if enum(got_c) != enum(want_c) or probs_c:
+                                wit = (dict(strides=svals, sizes=zvals), got_c, want_c, probs_c)
+                                break
+                        except Exception:
+                            continue
+                    if wit:
+                        break
+                if wit:
+                    rep.violated("M18.map(%s)" % tag, "M18.map", "%s: the adaptor takes a layout-dependent shortcut (%s) and on the concrete member %s the message denotes the element "
+                                 "loops %s, the view's canonical order is %s%s" % (tag, str(e)[:80], wit[0], wit[1], wit[2], ("; " + wit[3][0]) if wit[3] else ""), dict(member=wit[0]))
+                else:
+                    rep.inconclusive("M18.map(%s)" % tag, "M18.map", str(e) + " (%d concrete members agree)" % decided)
                 continue
             except irval.AssertFires as e:
                 rep.violated("M18.map(%s)" % tag, "M18.map", "the constructor aborts on a valid view: %s" % e, dict())
